@@ -140,6 +140,12 @@ func checkC01(ci interface{}, st *Stats) error {
 	if probe.MaxDepth >= 2 {
 		st.Class("left-recursion-exercised")
 	}
+	for _, v := range probe.asks {
+		if v >= 3 {
+			st.Class("a memoized parser asked >= 3 times at one position")
+			break
+		}
+	}
 	if nontrivial && lr.Any {
 		st.NonTrivial()
 	}
@@ -155,8 +161,17 @@ func init() {
 			if rapid.IntRange(0, 4).Draw(t, "extramemo") == 0 {
 				o.ExtraMemo = 4
 			}
+			o.Share = rapid.Bool().Draw(t, "share")
 			g := GenGrammar(t, o)
-			return &GCase{G: g, In: GenInput(t, g, o), MemoAll: rapid.Bool().Draw(t, "memoAll")}
+			memoAll := rapid.Bool().Draw(t, "memoAll")
+			if rapid.IntRange(0, 3).Draw(t, "alias") == 0 {
+				// a cached multi-result list consumed several times at one position
+				aliasSkeleton(t, g, o)
+				fixRepetitions(g, t, o.Alphabet)
+				g.number()
+				memoAll = true
+			}
+			return &GCase{G: g, In: GenInput(t, g, o), MemoAll: memoAll}
 		},
 		Check: checkC01,
 	})
